@@ -114,21 +114,21 @@ package collections
 // ---- TTLMap ----
 
 //@ func NewTTLMap
-//@   props C03 C14
+//@   props C03 C13 C14
 //@   modifies nothing
 //@   ensures fresh(result) && result != nil && result.OnExpire == nil && result.capacity == max(capacity, 0) && fresh(result.mutex)
 //@   ensures repOK(result) && result.vlen == 0 && (forall k string :: !result.vdom[k])
 //@   ghost_ensures result.vlen == 0 && (forall k string :: !result.vdom[k])
 
 //@ func (*TTLMap).toEpochSeconds
-//@   props C14
+//@   props C03 C13 C14
 //@   readsclock
 //@   modifies nothing
 //@   ensures ttlSeconds <= 0 ==> result1 != nil
 //@   ensures ttlSeconds > 0 ==> result1 == nil && result0 == (lastclock + ttlSeconds * 1000000000) / 1000000000
 
 //@ func (*TTLMap).get
-//@   props C14
+//@   props C03 C13 C14
 //@   holds m.mutex
 //@   readsclock
 //@   requires m != nil && repOK(m)
@@ -137,7 +137,7 @@ package collections
 //@   ensures result0 != nil ==> (result1 <==> result0.heapEl.Priority <= lastclock / 1000000000)
 
 //@ func (*TTLMap).RemoveExpired
-//@   props C09 C14
+//@   props C03 C09 C13 C14
 //@   holds m.mutex
 //@   readsclock
 //@   requires m != nil && repOK(m) && iterations == 1
@@ -150,7 +150,7 @@ package collections
 //@   loop 1 invariant i == 1 ==> (exists v string :: old(in(v, m.elements)) && !in(v, m.elements) && (forall k string :: old(in(k, m.elements)) ==> old(m.elements[v].heapEl.Priority) <= old(m.elements[k].heapEl.Priority)) && (forall k string :: k != v ==> entrySame(m, k)))
 
 //@ func (*TTLMap).RemoveLastUsed
-//@   props C09 C14
+//@   props C03 C09 C13 C14
 //@   holds m.mutex
 //@   requires m != nil && repOK(m) && iterations == 1
 //@   modifies mapof(m.elements), m.expiryTimes.qin, m.expiryTimes.qlen, m.expiryTimes.qtop, PQItem.index
@@ -162,7 +162,7 @@ package collections
 //@   loop 1 invariant i == 1 ==> old(len(m.elements)) > 0 && (exists v string :: old(in(v, m.elements)) && !in(v, m.elements) && (forall k string :: old(in(k, m.elements)) ==> old(m.elements[v].heapEl.Priority) <= old(m.elements[k].heapEl.Priority)) && (forall k string :: k != v ==> entrySame(m, k)))
 
 //@ func (*TTLMap).freeSpace
-//@   props C14
+//@   props C03 C13 C14
 //@   holds m.mutex
 //@   readsclock
 //@   requires m != nil && repOK(m) && count == 1
@@ -172,7 +172,7 @@ package collections
 //@   ensures removed_the_minimum: old(len(m.elements)) > 0 ==> (exists v string :: old(in(v, m.elements)) && !in(v, m.elements) && (forall k string :: old(in(k, m.elements)) ==> old(m.elements[v].heapEl.Priority) <= old(m.elements[k].heapEl.Priority)) && (forall k string :: k != v ==> entrySame(m, k)))
 
 //@ func (*TTLMap).set
-//@   props C14
+//@   props C03 C13 C14
 //@   holds m.mutex
 //@   readsclock
 //@   requires m != nil && repOK(m)
@@ -185,7 +185,7 @@ package collections
 //@   ensures evicts_nothing_when_empty: !old(in(key, m.elements)) && old(len(m.elements)) == 0 ==> (forall k string :: k != key ==> entrySame(m, k))
 
 //@ func (*TTLMap).lockNGet
-//@   props C09 C14
+//@   props C03 C09 C13 C14
 //@   readsclock
 //@   requires m != nil && m.OnExpire == nil
 //@   modifies nothing
@@ -193,7 +193,7 @@ package collections
 //@   ensures mapEl != nil ==> mapEl.key == key && tagof(value) == m.vtag[key] && payload(value) == m.vval[key] && (expired <==> m.vexp[key] <= lastclock / 1000000000)
 
 //@ func (*TTLMap).lockNDel
-//@   props C09 C14
+//@   props C03 C09 C13 C14
 //@   atomic m.mutex
 //@   readsclock
 //@   requires m != nil && m.OnExpire == nil && mapEl != nil
